@@ -290,7 +290,113 @@ func locallyIdempotent(m *ssa.Function) string {
 			return "closed flag tested and set under the receiver's mutex; all effects on the not-yet-closed edge"
 		}
 	}
+	// (c) the test-and-set lives in a helper method of the same receiver that reports whether this call did the
+	// transition; every effect of m lies on the edge where it did
+	for _, call := range core.Calls(m) {
+		h := core.StaticCallee(call)
+		cv, isVal := call.(*ssa.Call)
+		if h == nil || !isVal || h.Blocks == nil || h.Signature.Recv() == nil || len(cv.Call.Args) == 0 || !isReceiverOf(cv.Call.Args[0], m) || !testAndSetClosed(h) {
+			continue
+		}
+		allGuarded := true
+		for _, c2 := range core.Calls(m) {
+			if c2 == call {
+				continue
+			}
+			if _, isDefer := c2.(*ssa.Defer); isDefer {
+				continue
+			}
+			guarded := false
+			for _, cnd := range core.CondsAt(c2.Block()) {
+				if cnd.Cond == ssa.Value(cv) && cnd.Val {
+					guarded = true
+				}
+				if u, ok := cnd.Cond.(*ssa.UnOp); ok && u.Op == token.NOT && u.X == ssa.Value(cv) && !cnd.Val {
+					guarded = true
+				}
+			}
+			if !guarded && !core.InstrDominates(c2, call) {
+				allGuarded = false
+			}
+			if core.InstrDominates(c2, call) {
+				// effects before the test-and-set must be pure (none in this code base); be strict
+				if !isPureBuiltin(c2) {
+					allGuarded = false
+				}
+			}
+		}
+		if allGuarded {
+			return "closed flag tested and set under the receiver's mutex by " + core.FuncName(h) + "; all effects on the edge where this call closed it"
+		}
+	}
 	return ""
+}
+
+// testAndSetClosed: h() bool locks the receiver's mutex, returns false when the `closed` flag is already set, otherwise
+// sets it and returns true.
+func testAndSetClosed(h *ssa.Function) bool {
+	if h.Signature.Results().Len() != 1 || h.Signature.Results().At(0).Type().String() != "bool" {
+		return false
+	}
+	var flagLoad ssa.Value
+	var flagStore *ssa.Store
+	core.EachInstr(h, func(_ *ssa.BasicBlock, _ int, in ssa.Instruction) {
+		switch x := in.(type) {
+		case *ssa.UnOp:
+			if x.Op == token.MUL {
+				if fa, ok := x.X.(*ssa.FieldAddr); ok && core.FieldAddrRef(fa).Name == "closed" && isReceiverOf(fa.X, h) && flagLoad == nil {
+					flagLoad = x
+				}
+			}
+		case *ssa.Store:
+			if fa, ok := x.Addr.(*ssa.FieldAddr); ok && core.FieldAddrRef(fa).Name == "closed" && isReceiverOf(fa.X, h) {
+				if b, ok := core.ConstBool(x.Val); ok && b {
+					flagStore = x
+				}
+			}
+		}
+	})
+	if flagLoad == nil || flagStore == nil {
+		return false
+	}
+	locked := false
+	for _, call := range core.Calls(h) {
+		n := core.CallName(call)
+		if (n == "(*sync.Mutex).Lock" || n == "(*sync.RWMutex).Lock") && core.InstrDominates(call, flagLoad.(ssa.Instruction)) {
+			locked = true
+		}
+	}
+	if !locked {
+		return false
+	}
+	storeOnFalse := false
+	for _, cnd := range core.CondsAt(flagStore.Block()) {
+		if cnd.Cond == flagLoad && !cnd.Val {
+			storeOnFalse = true
+		}
+	}
+	if !storeOnFalse {
+		return false
+	}
+	for _, ret := range returnsOf(h) {
+		b, isC := core.ConstBool(core.ReturnResults(ret)[0])
+		if !isC {
+			return false
+		}
+		alreadySet := false
+		for _, cnd := range core.CondsAt(ret.Block()) {
+			if cnd.Cond == flagLoad && cnd.Val {
+				alreadySet = true
+			}
+		}
+		if b == alreadySet { // true must be returned exactly when the flag was not set before
+			return false
+		}
+		if b && !core.InstrDominates(flagStore, ret) {
+			return false
+		}
+	}
+	return true
 }
 
 // idempotentLibCloses: close operations of dependencies that are documented/known idempotent.
